@@ -614,3 +614,94 @@ example : NicheInv 2 ({ result := [7], members := [1, 0], potential := [[8], [9]
   · rfl
 
 end Platypus
+
+namespace Platypus
+section
+variable {σ : Type}
+
+/-- a rank annotation without gaps: below every rank that occurs, every smaller rank occurs too (what `nondominated_sort`
+assigns: front `r + 1` is only started when front `r` was non-empty) -/
+def GapFree (rank : σ → Nat) (l : List σ) : Prop :=
+  ∀ x ∈ l, ∀ r, r < rank x → matchesRank rank l r ≠ []
+
+/-- with gap-free ranks `nondominated_split` always supplies enough solutions: the hypothesis of
+`nsga3TruncateG_progress` is met whenever the merged population is at least as large as the target size -/
+theorem split_supplies_of_gapFree (rank : σ → Nat) (l : List σ) (size : Nat) (hg : GapFree rank l) (hlen : size ≤ l.length) :
+    size ≤ (nondominatedSplit rank l size).1.length + (nondominatedSplit rank l size).2.length := by
+  obtain ⟨r, h1, h2, h3⟩ := split_spec rank l size
+  rcases h3 with ⟨_, hfull | hemp⟩ | ⟨_, hlt⟩
+  · omega
+  · -- front r is empty: by gap-freeness every member has rank < r, so the kept fronts are the whole population
+    have hall : ∀ x ∈ l, rank x < r := by
+      intro x hx
+      by_contra hnot
+      have hle : r ≤ rank x := Nat.le_of_not_lt hnot
+      rcases Nat.lt_or_ge r (rank x) with hlt | hge
+      · exact hg x hx r hlt hemp
+      · have heq : rank x = r := Nat.le_antisymm hge hle
+        have hmem : x ∈ matchesRank rank l r := by
+          simp [matchesRank, hx, heq]
+        rw [hemp] at hmem
+        cases hmem
+    have hcount : (nondominatedSplit rank l size).1.length = l.length := by
+      rw [h1, length_flatMap_matches]
+      rw [List.countP_eq_length]
+      intro x hx
+      simpa using hall x hx
+    omega
+  · omega
+
+/-- NSGA-III's survival selection with gap-free ranks, every solution associated with a reference point and a valid
+closest-candidate choice can only fail on a tape mismatch: it never calls `random.choice([])`, never indexes out of range
+and always terminates within its bound -/
+theorem nsga3TruncateG_total_of_gapFree (rank : σ → Nat) (nrefs : Nat) (assoc : σ → Nat) (findMin : List σ → Nat → Nat)
+    (hfm : ∀ pot idx, pot ≠ [] → findMin pot idx < pot.length)
+    (sols : List σ) (size : Nat) (tape : RTape) (e : N3Err) (hassoc : ∀ s ∈ sols, assoc s < nrefs)
+    (hg : GapFree rank sols)
+    (h : nsga3TruncateG rank nrefs assoc findMin sols size tape = .error e) : e = .tape := by
+  by_cases hbig : sols.length > size
+  · exact nsga3TruncateG_progress rank nrefs assoc findMin hfm sols size tape e hassoc
+      (split_supplies_of_gapFree rank sols size hg (by omega)) h
+  · unfold nsga3TruncateG at h
+    simp only [hbig, ↓reduceIte] at h
+    cases h
+end
+end Platypus
+
+namespace Platypus
+section
+variable {σ : Type}
+
+/-- the ranks that `nondominated_sort` assigns (peeling fronts with any strict comparator, e.g. the proved Pareto
+comparator, over solutions with distinct identities) are gap-free -/
+theorem sortRanks_gapFree {cmp : σ → σ → Int} (h : StrictCmp cmp) (getId : σ → Nat) (sols : List σ)
+    (hid : (sols.map getId).Nodup) :
+    GapFree (fun x => (rankIn getId (sortFronts cmp getId sols) (getId x)).getD 0) sols := by
+  -- every rank below an occurring rank occurs
+  have down : ∀ (d : Nat) (x : σ), x ∈ sols → ∀ k, k + d = (rankIn getId (sortFronts cmp getId sols) (getId x)).getD 0 →
+      ∃ y ∈ sols, (rankIn getId (sortFronts cmp getId sols) (getId y)).getD 0 = k := by
+    intro d
+    induction d with
+    | zero =>
+      intro x hx k hk
+      exact ⟨x, hx, by omega⟩
+    | succ d ih =>
+      intro x hx k hk
+      obtain ⟨rx, hrx⟩ := sort_assigns_rank h getId sols x hx
+      rw [hrx] at hk
+      simp only [Option.getD_some] at hk
+      -- rank x = (k + d) + 1: some dominator has rank k + d
+      have hsucc : rankIn getId (sortFronts cmp getId sols) (getId x) = some ((k + d) + 1) := by
+        rw [hrx]; congr 1; omega
+      obtain ⟨_, y, hy, _, hry⟩ := (rank_succ_iff h getId sols hid x hx (k + d)).mp hsucc
+      exact ih y hy k (by rw [hry]; simp)
+  intro x hx r hr
+  have hr' : r < (rankIn getId (sortFronts cmp getId sols) (getId x)).getD 0 := hr
+  obtain ⟨y, hy, hry⟩ := down ((rankIn getId (sortFronts cmp getId sols) (getId x)).getD 0 - r) x hx r (by omega)
+  intro hemp
+  have hmem : y ∈ matchesRank (fun x => (rankIn getId (sortFronts cmp getId sols) (getId x)).getD 0) sols r := by
+    simp [matchesRank, hy, hry]
+  rw [hemp] at hmem
+  cases hmem
+end
+end Platypus
